@@ -40,6 +40,8 @@ def one(rec, hub, seed, tier, i):
             # numbers those arrays hold, at full precision
             cfg["prm_dtype"] = [None, np.float16, np.float32][(i // 14) % 3]
             cfg["truth"] = {k_: np.array(np.array(v_, dtype=cfg["prm_dtype"]), dtype=float) for k_, v_ in cfg["truth"].items()}
+    if i % 7 == 5:
+        cfg["param_form"] = "ndarray-keepdims" if (i // 7) % 3 else "list-keepdims"
     late = [] if i % 4 == 1 else None
     lm = dsm.build_lm(fd, cfg, late=late)
     if i % 4 in (1, 2):
@@ -62,6 +64,29 @@ def one(rec, hub, seed, tier, i):
     st = S.lm_state(lm)
     st["prms"] = {k: np.array(v, dtype=float) for k, v in cfg["truth"].items()}
     S.check_tables(rec, st, sf, pdf, "C08", where="driver ground truth")
+    if i % 8 in (2, 5):
+        # a read that is refused (a setting the builder refuses / parameters the distribution refuses), then the cause corrected AND new
+        # parameters given before the first successful read: the tables are those of the new parameters
+        lm_r = dsm.build_lm(fd, cfg)
+        how_r = "setting" if i % 8 == 2 else "parameters"
+        try:
+            if how_r == "setting":
+                lm_r.n_pts_per_interval = int(rng.choice([11, 15]))
+            else:
+                lm_r.set_prms(**{k: -np.array(v, dtype=float) for k, v in cfg["truth"].items()})
+            for a_ in rng.permutation(2)[: int(rng.integers(1, 3))]:
+                try:
+                    (lambda: lm_r.pdf, lambda: lm_r.sf)[int(a_)]()
+                except Exception:
+                    pass
+            lm_r.n_pts_per_interval = cfg["n_pts"]
+            new_r = {k: np.array(v, dtype=float) * (1.3 if k in ("mean", "weibull_scale") else 1.15) for k, v in cfg["truth"].items()}
+            lm_r.set_prms(**{k: v.copy() for k, v in new_r.items()})
+            st_r = S.lm_state(lm_r)
+            st_r["prms"] = new_r
+            S.check_tables(rec, st_r, np.asarray(lm_r.sf), np.asarray(lm_r.pdf), "C08", where=f"first tables after a read refused for its {how_r}, the cause corrected and new parameters given")
+        except Exception as e:
+            rec.skip("sf-tables", f"refused-read sequence not possible: {type(e).__name__}")
     if i % 3 == 0:
         # re-parameterisation: new objects, then the SAME objects with values changed in place; tables must follow what was passed
         objs = {k: fd.FlodymArray(dims=cfg["dims"], values=np.array(v) * 1.25) for k, v in cfg["truth"].items()}
